@@ -1,6 +1,7 @@
 """Differential driver for TreeCleaner.fix_nesting on REAL advtree node objects (run with PYTHONPATH=<snapshot of /repo/src>).
 stdin : one tree per line, prefix form   id cls exc nw w.. nk <kid> .. <kid>    (class codes: vt/harness/c05_snap.py CLS)
 stdout: one line per tree:  "DONE <moves> <skeleton>" | "RAISED <ExceptionType> <moves>" | "TIMEOUT" | "BAD <what> ..."
+        (2 s per tree; after 5 time-outs the remaining trees are answered "SKIPPED-AFTER-TIMEOUTS")
 A node with exc=1 gets vlist={"style": {"direction": "rtl"}} (TreeCleaner._is_exception is true for it); Text nodes get
 caption = the words joined by blanks.  skeleton = cls[:e][=w,w..]( kid kid .. ), the same syntax as ocaml/c06n/driver.ml.
 <moves> = number of self.report("moved", ...) calls = repairs started."""
@@ -85,7 +86,7 @@ def run_line(line):
             moves[0] += 1
 
     tc.report = report
-    signal.setitimer(signal.ITIMER_REAL, 5.0)
+    signal.setitimer(signal.ITIMER_REAL, 2.0)
     try:
         tc.fix_nesting(root)
     except Timeout:
@@ -106,12 +107,18 @@ def run_line(line):
 def main():
     signal.signal(signal.SIGALRM, _alarm)
     out = []
+    timeouts = 0
     for line in sys.stdin:
         line = line.strip()
         if not line:
             continue
+        if timeouts >= 5:
+            out.append("SKIPPED-AFTER-TIMEOUTS")
+            continue
         try:
             out.append(run_line(line))
+            if out[-1] == "TIMEOUT":
+                timeouts += 1
         except Exception as e:  # noqa: BLE001  (harness error: reported, never silently dropped)
             out.append("HARNESS-ERROR %s %s" % (type(e).__name__, e))
     sys.stdout.write("\n".join(out) + "\n")
